@@ -15,6 +15,8 @@ RULE = ('exact stream: single stage, base-stock S in 0..30, shipment lead time L
         'Coq run of NW1; non-trivial = some period with backorders and some with positive stock, L >= 1. '
         'expectation stream (EXACT, no sampling): i.i.d. demand with 2-3 support points (probabilities k/8 or k/16, offset 0/1/3), L in 1..2: expected period cost by '
         'enumerating every demand sequence through the implementation vs newsvendor_discrete on lead_time_demand_distribution(L), and both vs the two sides of C15_expected_period_cost evaluated in Coq. '
+        'analytic stream (deterministic): newsvendor_poisson/normal cost through both evaluation entry points at levels incl. 0 and negative ones vs direct summation / closed form; '
+        'ssm_serial.expected_cost(network=) with arbitrary node labels vs the canonical parameter form. '
         'demand-source stream (deterministic): a DemandSource driven through random setter sequences vs a fresh object with the same attributes '
         '(lead-time demand mean / sd / cdf / quantile must be identical). '
         'statistical stream (search only): base-stock single stage L in 1..3 with Poisson / low-variation normal demand (cv 0.05-0.15, levels up to 30% above the mean) vs newsvendor cost of '
@@ -90,12 +92,12 @@ def statistical(chk, T, reps):
                      dict(stream='statistical', kind=kind, params=params, T=len(per)))
     for _ in range(reps):
         # base-stock single stage, Poisson demand
-        L = rng.randint(1, 3); mu = rng.choice([2, 4, 6]); h = rng.choice([1, 2]); p = rng.choice([4, 9, 19]); S = int(mu * L + rng.randint(-2, 5))
+        L = rng.randint(1, 3); mu = rng.choice([2, 4, 6]); h = rng.choice([1, 2]); p = rng.choice([4, 9, 19]); S = int(mu * L + rng.randint(-2, 5)) if rng.random() < 0.8 else rng.choice([0, -1, -3])
         net = single_stage_system(holding_cost=h, stockout_cost=p, shipment_lead_time=L, demand_type='P', mean=mu, policy_type='BS', base_stock_level=S)
         per = sim_costs(net, T, rng.randint(1, 10 ** 6))
         judge('base-stock-poisson', dict(L=L, mu=mu, h=h, p=p, S=S), per, float(newsvendor_poisson_cost(S, h, p, mu * L)), 0.005)
         # (s,S) stage, L = 1, Poisson demand; fixed cost added per order placed
-        mu = rng.choice([2, 4, 6]); h = 1; p = rng.choice([4, 9]); K = rng.choice([4, 16]); s_ = int(mu + rng.randint(-2, 2)); S_ = s_ + rng.randint(1, 8)
+        mu = rng.choice([2, 4, 6]); h = 1; p = rng.choice([4, 9]); K = rng.choice([4, 16]); s_ = int(mu + rng.randint(-2, 2)) if rng.random() < 0.7 else rng.choice([-1, -2, -4]); S_ = s_ + rng.randint(1, 8)
         net = single_stage_system(holding_cost=h, stockout_cost=p, shipment_lead_time=1, demand_type='P', mean=mu, policy_type='sS', reorder_point=s_, order_up_to_level=S_)
         def fixed(netw, TT, K=K):
             nd = netw.nodes[0]; prod = nd._dummy_product.index
@@ -216,6 +218,71 @@ def expectation_stream(chk, n):
         chk.case(c, 0 < c['S'] - c['L'] * c['off'] < c['L'] * (c['m'] - 1))
 
 
+def analytic_stream(chk, n):
+    """deterministic: the analytical side at levels at, away from and BELOW the optimum (0 and negative levels = planned backorders), through
+    both evaluation entry points, against a direct summation / closed form written here; and the serial SSM cost through the network= entry
+    point with arbitrary node labels against the canonical-label call"""
+    import scipy.stats as st
+    from stockpyl import newsvendor as nv, ssm_serial
+    from stockpyl.ss import s_s_cost_discrete
+    from stockpyl.supply_chain_network import serial_system
+    from stockpyl.demand_source import DemandSource
+    rng = chk.rng
+    def pois_cost(S, h, p, mean):
+        hi = int(mean + 12 * math.sqrt(mean) + 30)
+        return sum(float(st.poisson.pmf(d, mean)) * (h * max(0, S - d) + p * max(0, d - S)) for d in range(0, hi))
+    def norm_cost(S, h, p, mu, sd):
+        z = (S - mu) / sd; pdf = math.exp(-z * z / 2) / math.sqrt(2 * math.pi); cdf = 0.5 * (1 + math.erf(z / math.sqrt(2)))
+        n = sd * (pdf - z * (1 - cdf)); nbar = n + (S - mu)
+        return h * nbar + p * n
+    def report(api, params, got, want):
+        chk.fail('long-run|analytical-cost|%s|level%s' % (api, '<0' if params['S'] < 0 else '=0' if params['S'] == 0 else '>0'),
+                 '%s%r = %r but the expected one-period cost computed directly is %r' % (api, params, got, want), dict(stream='analytic', api=api, params=params))
+    for _ in range(n):
+        h = rng.choice([1, 2, 0.5]); p = rng.choice([4, 9, 19, 0.5]); mean = rng.choice([0.5, 1.5, 3, 6, 12.5])
+        S = rng.choice([0, 0, -1, -2, -5, 1, int(mean), int(mean) + 3, int(2 * mean) + 5])
+        params = dict(S=S, h=h, p=p, mean=mean)
+        want = pois_cost(S, h, p, mean)
+        try:
+            got = float(nv.newsvendor_poisson_cost(S, h, p, mean))
+            if not close(got, want, 1e-7, 1e-7): report('newsvendor_poisson_cost', params, got, want)
+            S2, got2 = nv.newsvendor_poisson(h, p, mean, base_stock_level=S)
+            if S2 != S or not close(float(got2), want, 1e-7, 1e-7): report('newsvendor_poisson(base_stock_level=S)', params, (S2, float(got2)), (S, want))
+        except Exception as e:
+            chk.fail('long-run|analytical-cost|newsvendor_poisson|raises-%s' % exc_kind(e), '%r: %s' % (params, str(e)[:200]), dict(stream='analytic', params=params))
+        mu = rng.choice([10, 20, 50]); sd = mu * rng.choice([0.05, 0.1, 0.15]); Sn = rng.choice([0, 0.0, -3.5, mu, round(mu + 2 * sd, 2), round(mu - 3 * sd, 2), 1.5 * mu])
+        params = dict(S=Sn, h=h, p=p, mean=mu, sd=sd); want = norm_cost(Sn, h, p, mu, sd)
+        try:
+            got = float(nv.newsvendor_normal_cost(Sn, h, p, mu, sd))
+            if not close(got, want, 1e-7, 1e-7): report('newsvendor_normal_cost', params, got, want)
+            S2, got2 = nv.newsvendor_normal(h, p, mu, sd, base_stock_level=Sn)
+            if S2 != Sn or not close(float(got2), want, 1e-7, 1e-7): report('newsvendor_normal(base_stock_level=S)', params, (S2, float(got2)), (Sn, want))
+        except Exception as e:
+            chk.fail('long-run|analytical-cost|newsvendor_normal|raises-%s' % exc_kind(e), '%r: %s' % (params, str(e)[:200]), dict(stream='analytic', params=params))
+        chk.count('analytic:poisson-level=%s' % ('<0' if S < 0 else '=0' if S == 0 else '>0')); chk.case(dict(stream='analytic', S=S, Sn=Sn), S <= 0 or Sn <= 0)
+    # serial SSM cost: network= entry point with arbitrary labels vs the canonical parameter form
+    for _ in range(max(2, n // 10)):
+        N = rng.choice([3, 3, 4]); mu = rng.choice([2, 3]); p = rng.choice([8, 15])
+        he = [rng.choice([1, 2]) for _ in range(N)]; Ls = [rng.choice([1, 2]) for _ in range(N)]       # by position, upstream first
+        S_pos = sorted([rng.randint(2, 6) + 3 * k for k in range(N)], reverse=True)                    # echelon levels, upstream first (largest)
+        labels = rng.sample(range(1, 9), N)
+        try:
+            loc_h = [sum(he[:k + 1]) for k in range(N)]
+            net = serial_system(N, node_order_in_system=labels, node_order_in_lists=labels, local_holding_cost=loc_h, echelon_holding_cost=he, stockout_cost=[0] * (N - 1) + [p],
+                                shipment_lead_time=Ls, demand_type='P', mean=mu, policy_type='BS', base_stock_level=[0] * N)
+            got = float(ssm_serial.expected_cost({labels[k]: S_pos[k] for k in range(N)}, network=net))
+            # canonical parameter form: stage N upstream ... stage 1 downstream
+            want = float(ssm_serial.expected_cost({N - k: S_pos[k] for k in range(N)}, num_nodes=N, echelon_holding_cost={N - k: he[k] for k in range(N)},
+                                                  lead_time={N - k: Ls[k] for k in range(N)}, stockout_cost=p, demand_source=DemandSource(type='P', mean=mu)))
+        except Exception as e:
+            chk.fail('long-run|analytical-cost|ssm expected_cost(network=)|raises-%s' % exc_kind(e), str(e)[:200], dict(stream='analytic', labels=labels)); continue
+        params = dict(labels=labels, S=S_pos, he=he, L=Ls, p=p, mean=mu)
+        if not close(got, want, 1e-9, 1e-9):
+            chk.fail('long-run|analytical-cost|ssm expected_cost(network=)|depends-on-node-labels', 'expected_cost with the network labelled %s (upstream first) = %r, with canonical parameters = %r; %r' % (labels, got, want, params),
+                     dict(stream='analytic', params=params))
+        chk.count('analytic:ssm-network-labels'); chk.case(dict(stream='analytic', params=params), True)
+
+
 DS_ATTRS = {'N': dict(mean=[5, 20, 50], standard_deviation=[0.5, 1, 2, 7.5]), 'P': dict(mean=[2, 4.5, 9]), 'UD': dict(lo=[0, 2], hi=[5, 9]),
             'UC': dict(lo=[0, 2.5], hi=[5.5, 9]), 'CD': dict(demand_list=[[0, 1, 2], [1, 3, 5, 7]], probabilities=[None])}
 
@@ -290,6 +357,7 @@ def run(chk):
         chk.count('L=%d' % nd['slt']); chk.case(c, nontriv, simlib.case_key(c))
     demand_source_stream(chk, 60 if quick else 600)
     expectation_stream(chk, 20 if quick else 200)
+    analytic_stream(chk, 60 if quick else 600)
     statistical(chk, 6000 if quick else 40000, 3 if quick else 10)
     if (chk.broken or chk.mismatches) and not chk.fails:
         for _ in range(10 * n):
@@ -306,6 +374,8 @@ def replay(chk, rp):
     c = rp['case']
     if c.get('stream') == 'statistical':
         print('statistical case: re-run ./check C15 --tier quick with the same seed to reproduce'); return
+    if c.get('stream') == 'analytic':
+        print('analytic case: re-run ./check C15 --tier quick with the same seed to reproduce (deterministic)'); return
     if c.get('stream') == 'expectation':
         print('expectation case: re-run ./check C15 --tier quick with the same seed to reproduce (exact enumeration, deterministic)'); return
     if c.get('stream') == 'demand-source':
